@@ -574,3 +574,31 @@ def run(chk):
     _asmops_rule(chk, prog)
     _intenc_rule(chk, prog)
     _lookup_rule(chk, prog)
+    _asmrange_rule(chk, prog)
+
+
+def _asmrange_rule(chk, prog):
+    """An instruction field of w bits holding a signed operand can hold -2^(w-1) .. 2^(w-1) - 1; the disassembler and
+    the interpreter decode the whole of that range.  The assembler's acceptance test must therefore use min = -max - 1:
+    with a symmetric range the most negative immediate that disasm prints cannot be assembled again."""
+    rule = "C09-ASMRANGE"
+    chk.rule(rule, "the assembler accepts the full two's-complement range of a signed instruction field (min = -max - 1)")
+    from jv.linear import linear
+    fn = next((f for f in prog.all_funcs() if f.name == "doarg" and f.tu.name == "asm.c"), None)
+    if fn is None:
+        raise AnalysisBroken("asm.c: doarg not found")
+    chk.analysed(fn)
+    mins = [x for x in fn.nodes if x.k == "vardecl" and x.name == "min" and x.kids]
+    maxs = [x for x in fn.nodes if x.k == "vardecl" and x.name == "max" and x.kids]
+    if not mins or not maxs:
+        raise AnalysisBroken("doarg: min / max not found")
+    e = strip_casts(mins[0].kids[0])
+    chk.instance(rule)
+    signed_arm = e.kids[1] if e.k == "cond" and len(e.kids) == 3 else e
+    lin = linear(signed_arm)
+    if lin is not None and lin[0] == {"max": -1} and lin[1] == -1:
+        chk.ok(rule, "doarg: signed minimum is -max - 1")
+    else:
+        chk.violation(rule, "asm.c", "doarg", "signed-min", mins[0].loc,
+                      "doarg computes the smallest accepted signed operand as `%s`, not -max - 1: the most negative value the field can "
+                      "hold (and that disasm prints, e.g. -128 for a one-byte immediate) is rejected as `too small`" % signed_arm.text()[:40])
